@@ -189,8 +189,11 @@ def run_history(hist, init, plays, play_after=1):
     finished = threading.Event()
     state = {'driver': False}
 
+    finished_children = []
+    WALK = (0.25, 0.5) if rt else (0.75, 1.5, 0.25)
+
     def check_done():
-        if state['driver'] and len(done) == expected[0]:
+        if state['driver'] and len(finished_children) == expected[0]:
             finished.set()
 
     def spawn(c, q, p, H):
@@ -213,6 +216,20 @@ def run_history(hist, init, plays, play_after=1):
             if q > 0 and (not is_int((Fr(want) - G - Fr(p)) / Fr(q)) or Fr(want) < at or Fr(want) >= at + Fr(q)):
                 rec('play_quant_schedules_on_grid', Hp, call, repr(want),
                     'not the earliest beat congruent to phase mod quant from base_bar_beat %r that is not before the current beat' % float(G))
+            # ... and then it walks: every number it yields moves it exactly that many beats on, whatever the
+            # other routines do to the clock while it sleeps
+            prev = got
+            for d in WALK:
+                seen = len(HIST)
+                yield d
+                b, x = inval[1].beats, inval[1].seconds
+                wcall = 'a routine woken at beat %r yields %r (while it sleeps: %s)' % (prev, d, HIST[seen:] or 'nothing')
+                if Fr(b) != Fr(prev) + Fr(d):
+                    rec('yield_advances_by_delta', Hp + HIST[len(H):], wcall, repr(b), 'must wake at beat %r' % float(Fr(prev) + Fr(d)))
+                elif Fr(inval[1].beats2secs(b)) != Fr(x):
+                    rec('yield_advances_by_delta', Hp + HIST[len(H):], wcall, repr(x), 'woke at second %r, beats2secs(%r) is %r' % (x, b, inval[1].beats2secs(b)))
+                prev = b
+            finished_children.append(1)
             check_done()
         expected[0] += 1
         Routine(child).play(c, Quant(q, p))
